@@ -67,7 +67,7 @@ class C18(Prop):
                    "nets are compared as sets of pins; cable names are not compared",
                    ".cname values are never the name of a net (the reader names unnamed cells after the net they "
                    "drive, so such a .cname would clash with a convention, not with the file)"]
-    runs = {"quick": 2500, "thorough": 60000}
+    runs = {"quick": 10000, "thorough": 250000}
 
     def configure(self, rng, tier):
         r = rng
